@@ -20,6 +20,9 @@ use tracing::{debug, instrument, warn};
 
 use crate::rpc::{ClnRpc, RpcError};
 
+/// Time between attempts to determine the state of an outgoing payment.
+const WAIT_PAYMENT_RETRY_INTERVAL: Duration = Duration::from_secs(1);
+
 /// The `PaymentProvider` trait exposes a `pay` method.
 #[cfg_attr(test, automock)]
 #[async_trait]
@@ -149,6 +152,29 @@ where
     /// `wait_payment` waits until a payment is fully resolved and no htlcs for
     /// the given payment hash are outgoing anymore.
     async fn wait_payment(&self, payment_hash: sha256::Hash) -> Result<Option<Vec<u8>>> {
+        // As long as the state of the outgoing payment cannot be determined,
+        // the caller can neither settle nor fail the incoming htlcs, so there
+        // is nothing useful to do with an error. Keep trying until core
+        // lightning gives a conclusive answer.
+        loop {
+            match self.wait_payment_once(payment_hash).await {
+                Ok(result) => return Ok(result),
+                Err(e) => {
+                    warn!("failed to await payment, retrying: {:?}", e);
+                    tokio::time::sleep(WAIT_PAYMENT_RETRY_INTERVAL).await;
+                }
+            }
+        }
+    }
+}
+
+impl<R> PayPaymentProvider<R>
+where
+    R: ClnRpc + Send + Sync,
+{
+    /// Single attempt to wait until a payment is fully resolved. Returns an
+    /// error if the state of the payment could not be determined.
+    async fn wait_payment_once(&self, payment_hash: sha256::Hash) -> Result<Option<Vec<u8>>> {
         let completed_req = ListsendpaysRequest {
             payment_hash: Some(payment_hash),
             bolt11: None,
